@@ -293,6 +293,10 @@ class Twin:
                         ctx.check(m[k] == rA, 'C18:key-stored', {'kind': 'value stored under key() is not the result'})
             # ---- C20: round trip after `pickled_at` calls; from then on gB is the clone of gA
             if sc == 'pickle' and pickled_at is not None and i == pickled_at - 1:
+                paused = bool(cfg.get('pause')) and cfg['backend'] != 'none'
+                if paused:                      # archiving is switched off while the function is pickled
+                    gA.archived(False)
+                    gB.archived(False)
                 try:
                     clone = dill.loads(dill.dumps(gA))
                 except (PathPruned, Inconclusive):
@@ -316,6 +320,16 @@ class Twin:
                           {'kind': 'a call on the original changed the clone'})
                 # continue in lock-step: the clone vs the never-pickled reference twin gB (neither saw the call y)
                 gA = clone
+                if paused:                      # ... and switched back on in the restored copy
+                    try:
+                        gA.archived(True)
+                    except (PathPruned, Inconclusive):
+                        raise
+                    except Exception as e:
+                        ctx.check(False, 'C20:configuration', {'kind': 'the restored copy lost its paused archive (%s)' % type(e).__name__})
+                        return
+                    gB.archived(True)
+                    self.compare(ctx, gA, gB, 'C20:continuation', {'kind': 'state differs after switching the archive back on'})
                 # the clone calls the same module-level function fA; evaluation logs keep working
 
 
@@ -364,6 +378,8 @@ def plan(prop, tier):
             kw['name'] += '/%s%s' % (kw['args'], '+deep' if kw.get('deep') else '')
         if kw.get('ignore'):
             kw['name'] += '/ignore=%s' % ','.join(map(str, kw['ignore']))
+        if kw.get('pause'):
+            kw['name'] += '/paused'
         if kw.get('pickle_after'):
             kw['name'] += '/after%d' % kw['pickle_after']
         if kw.get('canary'):
@@ -404,6 +420,7 @@ def plan(prop, tier):
                 # keymaps with state of their own: composed (a + b), typed, sentinel
                 for km in (('chain', 'rawsent', 'rawSENTINEL') if q else ('chain', 'chainnf', 'rawsent', 'rawSENTINEL', 'rawtyped', 'str', 'md5nf')):
                     add(scenario='pickle', module=m, algo=a, backend='cached_dict', N=4, pickle_after=2, keymap=km)
+                add(scenario='pickle', module=m, algo=a, backend='cached_dict', N=4, pickle_after=2, keymap='raw', pause=True)
                 # keys that hold klepto's own marker objects (the placeholder of an ignored argument)
                 add(scenario='pickle', module=m, algo=a, backend='cached_dict', N=4, pickle_after=2, keymap='raw', ignore=['x'])
                 if not q:
